@@ -103,6 +103,12 @@ func parseV1Header(buf []byte) (*Header, error) {
 	var src, dest net.TCPAddr
 	var done bool
 
+	// The protocol is followed by exactly one space, and the addresses are of the protocol's family.
+	if buf[10] != ' ' {
+		return nil, fmt.Errorf("expected a space after the protocol, found '%c'", buf[10])
+	}
+	isTCP6 := buf[9] == '6'
+
 	err := split(buf[11:], func(pos int, buf []byte) error {
 		switch pos {
 		case 0:
@@ -110,11 +116,17 @@ func parseV1Header(buf []byte) (*Header, error) {
 			if ip == nil {
 				return fmt.Errorf("invalid ip '%s' at pos '%d'", buf, pos)
 			}
+			if bytes.IndexByte(buf, ':') >= 0 != isTCP6 {
+				return fmt.Errorf("ip '%s' at pos '%d' is not of the protocol's address family", buf, pos)
+			}
 			src.IP = ip
 		case 1:
 			ip := net.ParseIP(string(buf))
 			if ip == nil {
 				return fmt.Errorf("invalid ip '%s' at pos '%d'", buf, pos)
+			}
+			if bytes.IndexByte(buf, ':') >= 0 != isTCP6 {
+				return fmt.Errorf("ip '%s' at pos '%d' is not of the protocol's address family", buf, pos)
 			}
 			dest.IP = ip
 		case 2:
@@ -130,6 +142,8 @@ func parseV1Header(buf []byte) (*Header, error) {
 			}
 			dest.Port = port
 			done = true
+		default:
+			return fmt.Errorf("unexpected '%s' after the destination port", buf)
 		}
 		return nil
 	})
